@@ -150,6 +150,45 @@ pub fn value_bytes(op_idx: usize, vlen: u32, fill: u8) -> Vec<u8> {
 // strategies
 // ------------------------------------------------------------------------------------------------
 
+#[derive(Clone, Copy, Debug, PartialEq, Eq)]
+pub enum VlenGen {
+    /// 0..300 bytes, mostly 4..12
+    Small,
+    /// centred on the single-pass (4 KiB) and background-I/O (80 KiB) thresholds, plus small and large values
+    Thresholds,
+}
+
+/// Values >= VLEN_REL encode a length relative to a write-path threshold:
+/// bits 8..9 select the threshold (0: 4096 - header - meta, 1: 4096, 2: 81920 - header - meta, 3: 81920),
+/// the low byte is a signed delta.
+pub const VLEN_REL: u32 = 0x4000_0000;
+
+pub fn vlen_rel(thr: u8, delta: i8) -> u32 {
+    VLEN_REL | ((thr as u32 & 3) << 8) | (delta as u8 as u32)
+}
+
+/// bincode size of a metadata map
+pub fn meta_serialized_size(m: &Option<MetaMap>) -> usize {
+    8 + m.as_ref().map_or(0, |m| m.iter().map(|(k, v)| 16 + k.len() + v.len()).sum::<usize>())
+}
+
+/// Resolves a generated value length for the key length and metadata of the write
+pub fn resolve_vlen(vlen: u32, keylen: usize, meta: &Option<MetaMap>) -> u32 {
+    if vlen < VLEN_REL {
+        return vlen;
+    }
+    let head = 57 + keylen + meta_serialized_size(meta);
+    let thr = (vlen >> 8) & 3;
+    let delta = (vlen & 0xff) as u8 as i8 as i64;
+    let base: i64 = match thr {
+        0 => 4096 - head as i64,
+        1 => 4096,
+        2 => 81_920 - head as i64,
+        _ => 81_920,
+    };
+    (base + delta).max(0) as u32
+}
+
 #[derive(Clone, Debug)]
 pub struct GenParams {
     pub nkeys: u8,
@@ -166,7 +205,8 @@ pub struct GenParams {
     pub w_maint: u32,
     pub w_bg: u32,
     pub reopen_damage: bool,
-    pub small_values: bool,
+    pub vlen: VlenGen,
+    pub fills: u8,
 }
 
 impl Default for GenParams {
@@ -185,7 +225,8 @@ impl Default for GenParams {
             w_maint: 0,
             w_bg: 0,
             reopen_damage: false,
-            small_values: true,
+            vlen: VlenGen::Small,
+            fills: 1,
         }
     }
 }
@@ -201,6 +242,18 @@ fn ts_strategy(span: u64) -> BoxedStrategy<u64> {
 
 pub fn vlen_small() -> BoxedStrategy<u32> {
     prop_oneof![6 => 4u32..12, 2 => 0u32..4, 1 => 12u32..300].boxed()
+}
+
+pub fn vlen_thresholds() -> BoxedStrategy<u32> {
+    prop_oneof![
+        3 => 0u32..3,
+        3 => 3u32..300,
+        6 => (0u8..2, -2i8..3).prop_map(|(t, d)| vlen_rel(t, d)),
+        3 => (2u8..4, -2i8..3).prop_map(|(t, d)| vlen_rel(t, d)),
+        2 => 300u32..6000,
+        1 => Just(200_000u32),
+    ]
+    .boxed()
 }
 
 pub fn pred_strategy() -> BoxedStrategy<Pred> {
@@ -220,8 +273,11 @@ pub fn damage_strategy() -> BoxedStrategy<Damage> {
 pub fn op_strategy(p: &GenParams) -> BoxedStrategy<Op> {
     let nkeys = p.nkeys;
     let metas = p.metas;
-    let vlen = if p.small_values { vlen_small() } else { (0u32..6000).boxed() };
-    let write = (0..nkeys, ts_strategy(p.ts_span), 0..metas, vlen, 0u8..1).prop_map(|(key, ts, meta, vlen, fill)| Op::Write { key, ts, meta, vlen, fill });
+    let vlen = match p.vlen {
+        VlenGen::Small => vlen_small(),
+        VlenGen::Thresholds => vlen_thresholds(),
+    };
+    let write = (0..nkeys, ts_strategy(p.ts_span), 0..metas, vlen, 0u8..p.fills.max(1)).prop_map(|(key, ts, meta, vlen, fill)| Op::Write { key, ts, meta, vlen, fill });
     let delete = (0..nkeys, ts_strategy(p.ts_span), 0..metas.min(3), any::<bool>()).prop_map(|(key, ts, meta, only_if)| Op::Delete { key, ts, meta, only_if });
     let damage = if p.reopen_damage { prop::collection::vec(damage_strategy(), 0..4).boxed() } else { Just(vec![]).boxed() };
     let reopen = (prop::bool::weighted(0.3), prop::bool::weighted(if p.reopen_damage { 0.15 } else { 0.45 }), damage).prop_map(|(lazy, remove_all_idx, damage)| Op::Reopen { lazy, remove_all_idx, damage });
@@ -281,7 +337,7 @@ pub fn case_hash(c: &Case) -> u64 {
 pub fn render_ops(ops: &[Op]) -> Vec<String> {
     ops.iter()
         .map(|o| match o {
-            Op::Write { key, ts, meta, vlen, .. } => format!("write(k{},ts={},m{},{}B)", key, fmt_ts(*ts), meta, vlen),
+            Op::Write { key, ts, meta, vlen, fill } => format!("write(k{},ts={},m{},{},fill{})", key, fmt_ts(*ts), meta, fmt_vlen(*vlen), fill),
             Op::Delete { key, ts, meta, only_if } => format!("delete(k{},ts={},m{},only_if={})", key, fmt_ts(*ts), meta, only_if),
             Op::Reopen { lazy, remove_all_idx, damage } => format!("reopen(lazy={},rm_idx={},damage={})", lazy, remove_all_idx, damage.len()),
             Op::ForceUpdate(p) => format!("force_update({:?})", p),
@@ -291,6 +347,15 @@ pub fn render_ops(ops: &[Op]) -> Vec<String> {
             other => other.name().to_string(),
         })
         .collect()
+}
+
+fn fmt_vlen(v: u32) -> String {
+    if v < VLEN_REL {
+        format!("{}B", v)
+    } else {
+        let names = ["4096-head", "4096", "81920-head", "81920"];
+        format!("{}{:+}B", names[((v >> 8) & 3) as usize], (v & 0xff) as u8 as i8)
+    }
 }
 
 fn fmt_ts(ts: u64) -> String {
